@@ -195,6 +195,7 @@ class Model:
         self.tables = {i: {} for i in range(nmods)}
         self.ntag = 0
         self.nested_jobs = {}
+        self.rt_actions = []
 
     def tag(self, mod, name):
         self.ntag += 1
@@ -220,6 +221,7 @@ class Model:
             if k == "def":
                 self.tables[mod][f[1]] = tagdef
                 R[f[1]] = tagdef
+                self.rt_actions.append(["def", f[1], tagdef])
                 recs.append(["def", None, f_src])
             elif k in ("use", "defuse"):
                 name = f[1]
@@ -231,6 +233,7 @@ class Model:
                 if k == "defuse":
                     self.tables[mod][name] = tagdef
                     R[name] = tagdef
+                    self.rt_actions.append(["def", name, tagdef])
                 recs.append(["use", val, f_src])
             elif k == "req":
                 j, names = f[1], f[2]
@@ -245,6 +248,7 @@ class Model:
                 if names == "*":
                     # `:readers *` enables every reader macro the requiring module has, in the current reader
                     R.update(self.tables[mod])
+                self.rt_actions.append(["req", j, names])
                 recs.append(["req", None, f_src])
             elif k == "nested":
                 j = f[1]
@@ -359,16 +363,21 @@ def execute(desc):
                 op2 = dict(op, forms=forms)
                 before_tables = {i: dict(t) for i, t in model.tables.items()}
                 model.nested_jobs = {}
+                model.rt_actions = []
                 recs, err = model.process(op2, Rm, uid)
                 if err is None and fe in ("lazy", "repl"):
-                    # require also runs at run time, i.e. after EVERY form of the stream has been compiled: whatever the
-                    # source module's table holds by then is transferred again
-                    for f in forms:
-                        if f[0] == "req":
-                            src_t = model.tables[f[1]]
-                            for n_ in (sorted(src_t) if f[2] == "*" else f[2]):
+                    # the whole stream is compiled first and run afterwards.  At run time, in source order, require
+                    # transfers again whatever the source module's table holds by then, and defreader (an
+                    # eval-and-compile) registers its definition again -- so a definition written after a require of
+                    # the same name in one stream is the one that stays
+                    for a in model.rt_actions:
+                        if a[0] == "req":
+                            src_t = model.tables[a[1]]
+                            for n_ in (sorted(src_t) if a[2] == "*" else a[2]):
                                 if n_ in src_t:
                                     model.tables[mi][n_] = src_t[n_]
+                        else:
+                            model.tables[mi][a[1]] = a[2]
                 probe.jobs.clear()
                 for k_, (j_, text_) in model.nested_jobs.items():
                     probe.jobs[k_] = (lambda j=j_, text=text_: hy.eval(hy.read_many(text, reader=own[j]), module=mods[j]))
